@@ -101,7 +101,7 @@ def wiring_case(draw):
     golden_cc = draw(triple())
     cand_cc = draw(near(golden_cc))
     ext = draw(st.sampled_from(['.smt2', '.smt2', '.smt', '', '.txt', '.a.b']))
-    extra = draw(st.lists(st.sampled_from(['--foo', '-x', 'bar', '--opt=1', 'a b']),
+    extra = draw(st.lists(st.sampled_from(['--foo', '-x', 'bar', '--opt=1', 'a b', "o'brien", 'say"hi', '\\x']),
                           max_size=2))
     return dict(kind='wiring', opts=opts, golden=list(golden), cand=list(cand),
                 golden_cc=list(golden_cc), cand_cc=list(cand_cc), ext=ext, extra=extra)
@@ -164,7 +164,9 @@ def run_wiring(dd, case, acc, workdir):
         if opts[o]:
             argv += ['--' + o.replace('_', '-'), opts[o]]
     if opts['cmd_cc']:
-        argv += ['-c', ' '.join(cmd_cc)]
+        # one argument, split by ddSMT at white space (any amount of it)
+        sep = [' ', '  ', ' \t', '   '][len(repr(case)) % 4]
+        argv += ['-c', sep.join(cmd_cc)]
     argv += [infile, outfile] + cmd
     a = env.set_options(dd, argv)
     dd.tmpfiles.init()
